@@ -37,6 +37,8 @@ POOL_TEXTS = ["friday 9-5", "8:00 pm - 9:00 pm", "tomorrow 8-10 uhr", "May 5th 2
               "gargelbabel #one #two #three #four", "#zeta #alpha #mid monday #beta #omega", "so mo di #x #y",
               # the same token in different multiplicities / the same word at different offsets
               "tomorrow tomorrow", "tomorrow", "mon tue wed thu", "mon tue", "8pm 9pm 10pm", "8pm 9pm", "5 5 5", "5 5",
+              "#work standup tomorrow 9am #team #work", "#a #b #a #c call", "gargelbabel #x #y #x #z",
+              "Lunch zzyx Tomorrow #food", "lunch zzyx tomorrow #food", "FRIDAY 9-5 qwv", "friday 9-5 qwv",
               "tomorrow at midnight", "party at midnight", "midnight", "um mitternacht morgen", "noon", "lunch at noon tomorrow"]
 OPTS = [
     {},
@@ -58,6 +60,13 @@ def build_pool(seed, size):
         texts.append(ct[rnd.randrange(len(ct))][0])
     tss = [dt.datetime(2020, 2, 25, 12, 34), dt.datetime(2019, 12, 31, 23, 59, 59), dt.datetime(2020, 2, 29, 8, 0)]
     pool = []
+    # the same text and reference time under both latent settings and two depths (a cache keyed on less than all
+    # arguments shows as history dependence)
+    twins = [("8:30 pm", {}), ("8:30 pm", {"latent_time": False}), ("friday 9-5", {"latent_time": False}), ("friday 9-5", {}),
+             ("20:15", {"latent_time": False}), ("20:15", {}), ("tomorrow 8 yesterday", {"max_stack_depth": 1}), ("tomorrow 8 yesterday", {}),
+             ("9-5", {"relative_match_len": 0.5}), ("9-5", {})]
+    for t, o in twins:
+        pool.append([t, tss[0].isoformat(), dict(o)])
     for i, t in enumerate(texts):
         o = dict(OPTS[i % len(OPTS)])
         o2, _ = gen.bounded_options(t, dict(o, max_stack_depth=o.get("max_stack_depth", 10)), max_seq=300, max_seq_depth0=30, max_len_depth0=5)
